@@ -33,7 +33,7 @@ def plan(tier, seed):
 
 
 def unit_timeout(tier):
-    return 400 if tier == "quick" else 1200
+    return 200 if tier == "quick" else 1200
 
 
 def floors(tier):
